@@ -153,14 +153,17 @@ func Parse(b []byte) (message util.Message, err error) {
 		message = new(PortStatus)
 		err = message.UnmarshalBinary(b)
 	case Type_PacketOut:
-		break
+		message = NewPacketOut()
+		err = message.UnmarshalBinary(b)
 	case Type_FlowMod:
 		message = NewFlowMod()
 		err = message.UnmarshalBinary(b)
 	case Type_GroupMod:
-		break
+		message = NewGroupMod()
+		err = message.UnmarshalBinary(b)
 	case Type_PortMod:
-		break
+		message = NewPortMod(0)
+		err = message.UnmarshalBinary(b)
 	case Type_TableMod:
 		break
 	case Type_BarrierRequest:
